@@ -64,3 +64,5 @@ def main(ctx):
         poolcommon = None
     if poolcommon is not None:
         poolcommon.run(ctx, 'C10')
+        from checks import poolreal
+        poolreal.run(ctx, 'C10')
